@@ -867,8 +867,11 @@ class C08(DamageBase):
         if getattr(g, "inphase", False):
             big = [fr for fr in frames if fr[2] == mrl.B - 7]
             for k, (f, o, n) in enumerate(big[:6]):
-                out.append(("%s_m%d" % (bid, k), cmds + ["damage %d %d x%02x" % (f, o + 7 + rng.randrange(0, n), rng.randrange(1, 256)), "open af"]))
-                self.stats["damage_images"] = self.stats.get("damage_images", 0) + 1
+                for tag, off, val in (("p", o + 7 + rng.randrange(0, n), rng.randrange(1, 256)),
+                                      ("t", o + 6, rng.choice([0, 5, 9, 77, 255])),
+                                      ("c", o + rng.randrange(0, 4), rng.randrange(1, 256))):
+                    out.append(("%s_m%s%d" % (bid, tag, k), cmds + ["damage %d %d x%02x" % (f, off, val), "open af"]))
+                    self.stats["damage_images"] = self.stats.get("damage_images", 0) + 1
         for k in range(self.per_base()):
             dmg = []
             for _ in range(rng.choice([1, 1, 1, 2, 3])):
@@ -1343,10 +1346,18 @@ class C12(TwoPass):
                 mids = [fr for fr in frames[1:-1]] if len(frames) > 2 else frames
                 frames = mids + [fr for fr in frames if fr not in mids]
                 nfr = max(nfr, min(len(mids), 6))
+            if getattr(g, "inphase", False):
+                # every Middle frame: once in its payload, once in its type byte (not a frame type), once in its
+                # checksum: three different ways for the reader to lose exactly that frame
+                for k, ((f, o), n) in enumerate(frames[: nfr]):
+                    for tag, off, val in (("p", o + 7 + rng.randrange(0, max(1, n)), rng.randrange(1, 256)),
+                                          ("t", o + 6, rng.choice([0, 5, 9, 77, 255])),
+                                          ("c", o + rng.randrange(0, 4), rng.randrange(1, 256))):
+                        out.append(("%s_%s_i%s%d" % (bid, meta, tag, k), cmds + ["damage %d %d x%02x" % (f, off, val), "open af"]))
+                        self.stats["damage_images"] = self.stats.get("damage_images", 0) + 1
+                frames = []
             for ((f, o), n) in frames[: nfr]:
                 x = rng.random()
-                if getattr(g, "inphase", False) and n > 0:
-                    x = 0.9
                 if x < 0.4 or n == 0:
                     off = o + rng.randrange(0, 7)
                 else:
